@@ -185,6 +185,34 @@ func (g *G) id(prefix string) string {
 	return fmt.Sprintf("%s-%d-%d", prefix, g.N, g.uniq)
 }
 
+// md returns a metadata string (limit: 256 BYTES): mostly a short unique id, one time in eight a string at the
+// limit -- exactly 256 bytes, 257 bytes, and multi-byte UTF-8 text whose character count is below the limit while
+// its byte count is at (255/256), just above (258) or far above (360) it.
+func (g *G) md(prefix string) string {
+	if !g.R.Chance(1, 8) {
+		return g.id(prefix)
+	}
+	id := g.id(prefix)
+	const wide = "森" // 3 bytes
+	var out, kind string
+	switch g.R.Intn(6) {
+	case 0:
+		out, kind = longString(id+"-", 256), "ascii-256-bytes"
+	case 1:
+		out, kind = longString(id+"-", 257), "ascii-257-bytes"
+	case 2:
+		out, kind = strings.Repeat(wide, 85)+"x", "utf8-256-bytes-86-chars"
+	case 3:
+		out, kind = strings.Repeat(wide, 86), "utf8-258-bytes-86-chars"
+	case 4:
+		out, kind = strings.Repeat(wide, 120), "utf8-360-bytes-120-chars"
+	default:
+		out, kind = id+"-"+strings.Repeat(wide, 40), "utf8-short"
+	}
+	g.bump("metadata:" + kind)
+	return out
+}
+
 // txHash returns a fresh valid ethereum tx hash.
 func (g *G) txHash() string {
 	g.uniq++
